@@ -384,7 +384,17 @@ def _validate_url(url: str, validator: Callable[[str], None] | None) -> None:
         # its args do not survive in ``__context__``.
         message = str(exc).replace(url, redact_url(url))
         parsed = urlparse(url)
-        secrets = [parsed.username, parsed.password, *(value for _, value in parse_qsl(parsed.query))]
+        secrets = [
+            parsed.username,
+            parsed.password,
+            # A validator may interpolate URL *components* rather than the URL:
+            # the raw query and fragment, and query values both decoded and
+            # as they appear on the wire (percent-encoded).
+            parsed.query,
+            parsed.fragment,
+            *(value for _, value in parse_qsl(parsed.query)),
+            *(pair.partition("=")[2] for pair in parsed.query.split("&")),
+        ]
         for secret in secrets:
             if secret:
                 message = message.replace(secret, "<redacted>")
@@ -412,7 +422,12 @@ async def _request_following_redirects(
                     response = await client.head(current_url, headers=headers, allow_redirects=False)
                 else:
                     response = await client.get(current_url, headers=headers, allow_redirects=False)
-            except (TimeoutError, ConnectionResetError):
+            except TimeoutError:
+                # aiohttp's connect-timeout message embeds the full request URL,
+                # query string included.  Keep the type (callers retry on
+                # OSError/TimeoutError) but not the text.
+                raise TimeoutError(f"ExternalLocation {method} timed out for {redact_url(current_url)}") from None
+            except ConnectionResetError:
                 raise
             except Exception as exc:
                 import aiohttp as _aiohttp
@@ -708,6 +723,7 @@ async def _fetch_one_chunk(
     semaphore: asyncio.Semaphore,
     config: FetchConfig,
     url_validator: Callable[[str], None] | None,
+    total_size: int | None = None,
 ) -> bytes:
     """Fetch a single byte range.
 
@@ -725,6 +741,24 @@ async def _fetch_one_chunk(
                 raise RuntimeError(
                     f"Expected HTTP 206 for Range request, got {resp.status} (bytes={start}-{end} of {redact_url(url)})"
                 )
+            # A 206 states which bytes it carries.  Splicing in a different
+            # range of the right size, or chunks of an object whose total
+            # differs from the probed length, would return wrong bytes without
+            # any error.
+            content_range = resp.headers.get("Content-Range", "")
+            range_match = re.match(r"^\s*bytes\s+(\d+)-(\d+)/(\d+|\*)\s*$", content_range)
+            if range_match is not None:
+                got_start, got_end, got_total = range_match.groups()
+                if int(got_start) != start or int(got_end) != end:
+                    raise RuntimeError(
+                        f"Range response mismatch: asked bytes={start}-{end}, got {got_start}-{got_end} "
+                        f"(of {redact_url(url)})"
+                    )
+                if total_size is not None and got_total != "*" and int(got_total) != total_size:
+                    raise RuntimeError(
+                        f"Range response total mismatch: object is {got_total} bytes, probe reported {total_size} "
+                        f"(of {redact_url(url)})"
+                    )
             try:
                 return await _read_range_response_body(resp, expected_size, config)
             except RuntimeError as exc:
@@ -755,7 +789,7 @@ async def _fetch_chunks_with_hedging(
         t0 = time.monotonic()
 
         async def _timed_fetch() -> tuple[int, bytes]:
-            data = await _fetch_one_chunk(client, url, start, end, semaphore, config, url_validator)
+            data = await _fetch_one_chunk(client, url, start, end, semaphore, config, url_validator, content_length)
             elapsed = time.monotonic() - t0
             completion_times.append(elapsed)
             return idx, data
